@@ -105,17 +105,19 @@ def units_cases(seed=0, reduced=False):
                 ("nm", 1e3, "mT", 1.0, "uA", 1.0, False, False), ("um", 1.0, "uT", 1e3, "mA", 1e-3, False, False),
                 ("um", 1.0, "mT", 1.0, "uA", 1.0, True, False), ("nm", 1e3, "uT", 1e3, "mA", 1e-3, True, False),
                 # time-dependent applied field (re-evaluated at every step)
-                ("um", 1.0, "mT", 1.0, "uA", 1.0, False, True), ("nm", 1e3, "uT", 1e3, "mA", 1e-3, False, True)]
+                ("um", 1.0, "mT", 1.0, "uA", 1.0, False, True), ("nm", 1e3, "uT", 1e3, "mA", 1e-3, False, True),
+                # time-dependent field with screening
+                ("um", 1.0, "mT", 1.0, "uA", 1.0, True, True), ("nm", 1e3, "uT", 1e3, "mA", 1e-3, True, True)]
         if reduced:
-            cfgs = [cfgs[0], cfgs[2], cfgs[7], cfgs[8]]
+            cfgs = [cfgs[0], cfgs[2], cfgs[7], cfgs[8], cfgs[9], cfgs[10]]
         for ci, (lu, ls, fu, fs_, cu, cs, screening, ramp) in enumerate(cfgs):
             dev = make_device(lu, ls)
             dev.mesh = base.mesh          # share the dimensionless mesh (Triangle is not unit-covariant bit-wise)
-            opts = tdgl.SolverOptions(solve_time=0.5, save_every=1000, include_screening=screening, field_units=fu, current_units=cu,
-                                      output_file=os.path.join(td, f"u{ci}.h5"))
+            opts = tdgl.SolverOptions(solve_time=(0.2 if (screening and ramp) else 0.5), save_every=1000, include_screening=screening, field_units=fu, current_units=cu,
+                                      output_file=os.path.join(td, f"u{ci}.h5"), **(dict(screening_tolerance=2e-2, max_iterations_per_step=5000, dt_max=2e-2) if (screening and ramp) else {}))
             field = 0.3 * fs_
             if ramp:
-                field = LinearRamp(tmin=0.0, tmax=0.4) * ConstantField(0.6 * fs_, field_units=fu, length_units=lu)
+                field = LinearRamp(tmin=0.0, tmax=(0.15 if screening else 0.4)) * ConstantField((0.15 if screening else 0.6) * fs_, field_units=fu, length_units=lu)
             sol = tdgl.solve(dev, opts, applied_vector_potential=field, terminal_currents=dict(source=4.0 * cs, drain=-4.0 * cs))
             d = sol.tdgl_data
             mu = d.mu - d.mu.mean()
@@ -277,6 +279,21 @@ def reject_cases(seed=0):
             left = set(os.listdir(td)) - before
             if left:
                 bad.append(dict(what="rejected seed left files behind", case=tag, files=sorted(left)))
+        # a valid polygon edited in place into a self-intersecting outline is an invalid polygon: no device can be built from it
+        bow = tdgl.Polygon("film", points=box(3, 2, points=4))
+        n += 1
+        try:
+            pts_ = bow.points
+            pts_[[1, 2]] = pts_[[2, 1]]
+            if bow.is_valid:
+                bad.append(dict(what="invalid definition accepted", case="polygon edited in place into a bow-tie still reports is_valid"))
+            try:
+                tdgl.Device("x", layer=layer, film=bow)
+                bad.append(dict(what="invalid definition accepted", case="device built from a film that was edited in place into a bow-tie"))
+            except ValueError:
+                pass
+        except Exception as e:  # noqa
+            bad.append(dict(what=f"bow-tie case raised {type(e).__name__}: {str(e)[:100]}"))
         # invalid polygons / devices
         for tag, fn in (("self-intersecting polygon", lambda: tdgl.Polygon("bow", points=[(0, 0), (1, 1), (1, 0), (0, 1)])),
                         ("duplicate terminal names", lambda: tdgl.Device("x", layer=layer, film=tdgl.Polygon("f", points=box(2, 2)),
